@@ -16,5 +16,11 @@ def put(name, body):
         s=s.replace(f'@@{name}@@', f'{a}\n{body}\n{b}')
     else:
         s=re.sub(re.escape(a)+r'.*?'+re.escape(b), lambda m: f'{a}\n{body}\n{b}', s, flags=re.S)
-put('TABLE', table); put('SEEDED', seeded)
+k=json.load(open('/verif/KNOWN_FINDINGS.json'))
+rows=['| property | what failed on the pinned tree | handling |','|---|---|---|']
+for f in k['fixed']:
+    rows.append(f"| {f['property']} | {f['what']} | fix {f['commit']} |")
+for f in k['findings']:
+    rows.append(f"| {f['property']} | {f['what']} | known finding `{f['key']}` |")
+put('TABLE', table); put('SEEDED', seeded); put('FINDINGS', '\n'.join(rows))
 open(p,'w').write(s)
